@@ -62,6 +62,9 @@ def run(ck: Check):
                 for v in ("YNY" * 10, "YYYYYYYY", "YNNYNNY", "YYNNYYNN"):
                     run_ = impl_session([{"strategy": strategy, "cfg": {}, "atom": atom, "file0": data, "verdict": v,
                                           "write_fault": k}])[0]
+                    if run_.fault_last:
+                        ck.count("write-fault-on-last-write(skipped)")
+                        continue
                     ck.count("write-fault")
                     ck.nontrivial(("write-fault", strategy, atom, k, v))
                     ctx = {"strategy": strategy, "cfg": {}, "tc": run_.loaded, "file0": data, "verdicts": v, "clock": [],
@@ -70,6 +73,10 @@ def run(ck: Check):
                         ck.violation(f"{strategy}/{atom}: write number {k} to the testcase file failed half-way (once); "
                                      f"the run ended ({run_.exc}) leaving {run_.final!r}, which is not the original with "
                                      f"reducible atoms deleted", replay_doc(ctx, run_, write_fault=k))
+    # one Lithium / testcase / strategy object for two consecutive files (nothing of the first file may show up
+    # in what the test sees of the second)
+    from universe import session_universe
+    session_universe(ck, oracle_c04, quick=quick)
     ex.diff()
     return ck.finish(level="proof", rule=RULE, assumptions=[
         "minimize-around / minimize-balanced: see DESIGN.md for which of their theorems are proved"])
